@@ -792,10 +792,15 @@ func (r e2eRun) uploadFS(base fs.FS) fs.FS {
 
 // e2eExpectedFailure: the verdict on an onboarding that is not expected to simply succeed.  r.Expect is "more" or
 // "fewer" (the single wget must be refused by the owner: the length disagrees), "sum" (only the digest disagrees), or
-// "upload-source" (the device's files cannot be read to the end the way fsim.Upload reads them).
+// "upload-source" (the device's files cannot be read to the end the way fsim.Upload reads them), or "exact-fit" (TO2 is to
+// succeed; see e2eExactFitVerdict).
 func e2eExpectedFailure(c *core.Ctx, r e2eRun, p core.Params, o core.Obs, terr error, timedOut bool, dirs map[string]string) {
 	if r.Expect == "upload-source" {
 		e2eUploadSourceVerdict(c, r, p, o, terr, timedOut, dirs["owndest"])
+		return
+	}
+	if r.Expect == "exact-fit" {
+		e2eExactFitVerdict(c, r, p, o, terr, timedOut, dirs)
 		return
 	}
 	devdest := dirs["devdest"]
@@ -865,6 +870,111 @@ func e2eUploadSourceVerdict(c *core.Ctx, r e2eRun, p core.Params, o core.Obs, te
 	}
 }
 
+// uploadExactFit: the smallest owner service info size at which the device's sending loop places a full fdo.upload data
+// chunk (1014 bytes: a 1017-byte value under a 15-byte key) in one TO2.DeviceServiceInfo; the message is then full to
+// the last byte.  ReadChunk's budget for the value is size - 5 (loop) - 1 - 16 (key) - 1 - 2 (value head).
+const uploadExactFit = 1017 + 5 + 1 + 16 + 1 + 2
+
+// e2eExactFitVerdict: transfers whose data entries fill a service-info message to the last byte, with more to follow.
+// Every file arrives identical and TO2 ends.  A run that is still exchanging messages at the timeout (or gave up after
+// hundreds of rounds) stalled: transfer-stalls-at-exact-fit.  Owner sizes below uploadExactFit cut fsim.Upload's fixed
+// chunk in two (the recorded upload-data-chunk-split-by-small-owner-mtu).
+func e2eExactFitVerdict(c *core.Ctx, r e2eRun, p core.Params, o core.Obs, terr error, timedOut bool, dirs map[string]string) {
+	rounds, _ := strconv.Atoi(obsField(o.Impl, "rounds"))
+	what := fmt.Sprintf("%s: downloads %s uploads %s", r.label(), p["downloads"], p["uploads"])
+	arrived, missing, firstMissing := 0, 0, ""
+	check := func(dir string, fs []e2eFile, who string) {
+		for _, f := range fs {
+			got, err := os.ReadFile(filepath.Join(dir, f.Name))
+			switch {
+			case err != nil:
+				missing++
+				if firstMissing == "" {
+					firstMissing = fmt.Sprintf("%s %q (%d bytes, chunk size %d)", who, f.Name, len(f.Data), f.Chunk)
+				}
+			case !bytes.Equal(got, f.Data):
+				c.Fail("file-differs-e2e", fmt.Sprintf("%s: %s %q: got %d bytes, want %d; first difference at %d", what, who, f.Name, len(got), len(f.Data), fsimFirstDiff(got, f.Data)), "e2e", p, o)
+			default:
+				arrived++
+			}
+		}
+		es, _ := os.ReadDir(dir)
+		for _, e := range es {
+			known := false
+			for _, f := range fs {
+				known = known || f.Name == e.Name()
+			}
+			if !known {
+				c.Fail("extra-file-e2e:"+who, fmt.Sprintf("%s: unexpected %q", what, e.Name()), "e2e", p, o)
+			}
+		}
+	}
+	check(dirs["devdest"], r.Downloads, "device")
+	check(dirs["owndest"], r.Uploads, "owner")
+	switch {
+	case terr == nil && missing == 0:
+		c.Count("exact_fit", fmt.Sprintf("%s dev=%d own=%d: delivered", r.Kind, r.DevMTU, r.OwnMTU))
+	case terr == nil:
+		c.Fail("file-differs-e2e", fmt.Sprintf("%s: TO2 succeeded, %d of %d files arrived; the first missing: %s", what, arrived, arrived+missing, firstMissing), "e2e", p, o)
+	case len(r.Uploads) > 0 && int(r.OwnMTU) < uploadExactFit && strings.Contains(terr.Error(), "fdo.upload:data"):
+		c.Count("exact_fit", fmt.Sprintf("%s own=%d: the 1014-byte chunk is cut in two (recorded)", r.Kind, r.OwnMTU))
+		c.Fail("upload-data-chunk-split-by-small-owner-mtu", fmt.Sprintf("%s: %s", what, fsimClip(terr.Error(), 400)), "e2e", p, o)
+	case timedOut || rounds >= 300:
+		c.Fail("transfer-stalls-at-exact-fit", fmt.Sprintf("%s: after %d TO2.DeviceServiceInfo messages no end (%d of %d files arrived; the first missing: %s): %s", what, rounds, arrived, arrived+missing,
+			firstMissing, fsimClip(terr.Error(), 300)), "e2e", p, o)
+	default:
+		c.Fail(fmt.Sprintf("to2-failed-e2e:exact-fit:%s/%d-%d", r.Kind, r.DevMTU, r.OwnMTU), fmt.Sprintf("%s: %d of %d files arrived; the first missing: %s: %s", what, arrived, arrived+missing, firstMissing,
+			fsimClip(terr.Error(), 400)), "e2e", p, o)
+	}
+}
+
+// fsimExactFitE2E: (1) fsim.Upload against owner sizes 1036..1050: at uploadExactFit (1042) a full chunk makes a
+// TO2.DeviceServiceInfo of exactly that size, and more chunks follow; below, see the recorded defect; above, room is
+// left.  At smaller owner sizes a file of one short chunk that fills the message exactly (size - 28 bytes), followed by
+// the digest.  (2) fsim.DownloadContents with chunk sizes around devsize - 29, the number of file bytes with which a data
+// entry makes a TO2.OwnerServiceInfo of exactly the device's size, files of three chunks and a little more.
+func fsimExactFitE2E(c *core.Ctx, file func(size, chunk int) e2eFile) []e2eRun {
+	var runs []e2eRun
+	quick := c.Quick()
+	for m := uploadExactFit - 6; m <= uploadExactFit+8; m++ {
+		ups := []e2eFile{file(1014, 0), file(2028, 0), file(3*1014+5, 0)}
+		if !quick {
+			ups = append(ups, file(1, 0), file(1013, 0), file(1015, 0), file(10*1014, 0))
+		}
+		runs = append(runs, e2eRun{Kind: "upload-exact-fit", DevMTU: 1300, OwnMTU: uint16(m), Uploads: ups, Expect: "exact-fit", Timeout: 4 * time.Second})
+	}
+	small := []int{300, 512, 1040}
+	if !quick {
+		small = []int{256, 257, 280, 281, 282, 283, 284, 285, 300, 511, 512, 513, 1000, 1039, 1040, 1041}
+	}
+	for _, m := range small {
+		// what ReadChunk reads of a value under the 16-byte key at this size, and the longest chunk whose value is that long
+		budget := m - 5 - 18
+		if budget >= 24 {
+			budget--
+		}
+		if budget >= 256 {
+			budget--
+		}
+		fit := svcFitLen(budget)
+		ups := []e2eFile{file(fit, 0), file(fit-1, 0), file(fit, 0)}
+		runs = append(runs, e2eRun{Kind: "upload-exact-fit", DevMTU: 1300, OwnMTU: uint16(m), Uploads: ups, Expect: "exact-fit", Timeout: 4 * time.Second})
+	}
+	devs := []int{300, 512, 1300}
+	if !quick {
+		devs = []int{285, 286, 287, 300, 512, 1043, 1300, 4096}
+	}
+	for _, dm := range devs {
+		var fs []e2eFile
+		for ch := dm - 33; ch <= dm-25; ch++ {
+			fs = append(fs, file(3*ch+5, ch))
+		}
+		fs = append(fs, file(2*(dm-29), dm-29), file(dm-29, dm-29)) // a file that ends with a message that is full
+		runs = append(runs, e2eRun{Kind: "download-exact-fit", DevMTU: uint16(dm), OwnMTU: 1300, Downloads: fs, Expect: "exact-fit", Timeout: 6 * time.Second})
+	}
+	return runs
+}
+
 // fsimMoreE2E: the onboardings of the two families.
 func fsimMoreE2E(c *core.Ctx, file func(size, chunk int) e2eFile) []e2eRun {
 	quick := c.Quick()
@@ -912,6 +1022,7 @@ func fsimMoreE2E(c *core.Ctx, file func(size, chunk int) e2eFile) []e2eRun {
 	wg(3000, "minus1", "closedelim", false, true)
 	wg(1014, "garbage", "stream", false, false)
 	wg(1014, "other-longer", "cl", true, true) // nothing announced: whatever is served is the file
+	runs = append(runs, fsimExactFitE2E(c, file)...)
 	if !quick {
 		for _, size := range []int{2, 1014, 70000} {
 			for _, served := range wgetServedKinds {
